@@ -1538,6 +1538,18 @@ int32_t tls13ParseServerHello(ssl_t *ssl,
     if (!Memcmp(&ssl->sec.serverRandom, sha256OfHelloRetryRequest,
                     SSL_HS_RANDOM_SIZE))
     {
+        if (ssl->tls13IncorrectDheKeyShare)
+        {
+            /* RFC 8446, 4.1.4: "If a client receives a second
+               HelloRetryRequest in the same connection (i.e., where the
+               ClientHello was itself in response to a HelloRetryRequest),
+               it MUST abort the handshake with an "unexpected_message"
+               alert." The flag is still set from the first one: it is
+               only cleared by a real ServerHello. */
+            psTraceErrr("Second HelloRetryRequest\n");
+            ssl->err = SSL_ALERT_UNEXPECTED_MESSAGE;
+            return MATRIXSSL_ERROR;
+        }
         ssl->tls13IncorrectDheKeyShare = PS_TRUE;
         psTraceInfo(">>> Client parsing TLS 1.3 HelloRetryRequest message\n");
 
